@@ -160,7 +160,10 @@ pub fn judge_cli(st: &mut Stats, c: &Circuit, only: Option<&str>) {
     let rc = to_rcircuit(c, &[]).unwrap();
     let (want, _, _) = sim_circuit(&rc);
     let dir = scratch_dir();
-    let tid = rayon::current_thread_index().unwrap_or(99);
+    // file names of their own for every call (never shared through a worker-thread index: a pool thread that waits
+    // inside a nested parallel section can pick up another case of the sweep)
+    static NEXT: std::sync::atomic::AtomicU64 = std::sync::atomic::AtomicU64::new(0);
+    let tid = NEXT.fetch_add(1, std::sync::atomic::Ordering::Relaxed);
     let inp = format!("{}/in-{}.qasm", dir, tid);
     let out = format!("{}/out-{}.qasm", dir, tid);
     std::fs::write(&inp, c.to_qasm()).unwrap();
